@@ -164,6 +164,13 @@ func (e *Engine) verifyAll(fns []*ssa.Function, dir string, perMs int, solvers [
 			}
 		}
 		if retry {
+			if os.Getenv("GOVC_DEBUG") != "" {
+				for _, o := range r.VC.obls {
+					if o.Unclaimed == "" && o.Result != "unsat" && o.Result != "sat" {
+						fmt.Fprintf(os.Stderr, "retry: %s (%s by %s)\n", o.Name, o.Result, o.Solver)
+					}
+				}
+			}
 			for _, o := range r.VC.obls {
 				if o.Result != "unsat" && o.Result != "sat" {
 					o.Result, o.Solver = "", ""
